@@ -478,6 +478,7 @@ func (Prop) Run(c *engine.Ctx) {
 
 	// ---- plain ECDH ------------------------------------------------------------------------------------------
 	c.Case("ecdh/plain", func(t *engine.T) { plainECDH(t, ds, rs) })
+	c.Case("ecdh/scalar-range/limb-boundaries", scalarRange)
 
 	// ---- rejection ---------------------------------------------------------------------------------------------
 	c.Case("reject/ephemeral-peer-point", func(t *engine.T) { rejectEphemeral(t, fixed[0]) })
